@@ -1,6 +1,7 @@
 """C15: a run paused at any step k and resumed gives exactly the uninterrupted result
 (in memory and through a JSON file)."""
 import inspect
+import json
 import os
 
 from . import gen as G
@@ -52,10 +53,36 @@ def objects_of(p):
     return out
 
 
-def param_diff(orig, loaded):
+def saved_fields(data):
+    """{object label: set of keys of its JSON node} for a file written by write_simple_json."""
+    out = {}
+    for node in data.get("pDESy", []):
+        typ = node.get("type")
+        if typ == "BaseProject" or ("init_datetime" in node):
+            out["project"] = set(node)
+        for c in node.get("component_list", []) or []:
+            out["C:" + c["ID"]] = set(c)
+        for t in node.get("task_list", []) or []:
+            out["T:" + t["ID"]] = set(t)
+        for tm in node.get("team_list", []) or []:
+            out["TM:" + tm["ID"]] = set(tm)
+            for w in tm.get("worker_list", []):
+                out["W:" + w["ID"]] = set(w)
+        for wp in node.get("workplace_list", []) or []:
+            out["WP:" + wp["ID"]] = set(wp)
+            for f in wp.get("facility_list", []):
+                out["F:" + f["ID"]] = set(f)
+    return out
+
+
+def param_diff(orig, loaded, saved=None):
     """Constructor parameters (by runtime reflection) whose value differs between the original
-    project and the project loaded from its JSON file: {('BaseTask','worker_priority_rule'), ...}"""
+    project and the project loaded from its JSON file: {('BaseTask','worker_priority_rule'), ...}.
+    With `saved` (from saved_fields) returns (unsaved, saved_but_different): a parameter that IS a
+    key of the object's JSON node but comes back different is a save/load defect, not a model that
+    'uses unsaved settings'."""
     diffs = set()
+    wrong = set()
     a, b = dict(objects_of(orig)), dict(objects_of(loaded))
     for key, oa in a.items():
         ob = b.get(key)
@@ -75,8 +102,13 @@ def param_diff(orig, loaded):
             if callable(va) or callable(vb):
                 continue
             if norm(va) != norm(vb):
-                diffs.add((type(oa).__name__, prm))
-    return diffs
+                if saved is not None and prm in saved.get(key, ()):
+                    wrong.add((type(oa).__name__, prm))
+                else:
+                    diffs.add((type(oa).__name__, prm))
+    if saved is None:
+        return diffs
+    return diffs, wrong
 
 
 def make_case(prop, seed, i, tier):
@@ -154,11 +186,28 @@ def run_case(case):
         if e is not None:
             continue
         orig_p = h.p
-        e = h.do(["saveload"])
-        if e is not None:
-            res.count("C15.json_save_load_failed")
+        path = scratch_file("c15")
+        q = None
+        try:
+            try:
+                with warnings.catch_warnings():
+                    warnings.simplefilter("ignore")
+                    orig_p.write_simple_json(path)
+                    data = json.load(open(path))
+                    q = ns.BaseProject()
+                    q.read_simple_json(path)
+            except Exception as ex:
+                res.count("C15.json_save_load_failed")
+                q = None
+        finally:
+            if os.path.exists(path):
+                os.remove(path)
+        if q is None:
             continue
-        pd = param_diff(orig_p, h.p)
+        h.p = q
+        pd, wrong = param_diff(orig_p, q, saved_fields(data))
+        for cls, prm in sorted(wrong):
+            res.count("C15.saved_but_restored_differently.%s.%s" % (cls, prm))
         if pd:
             res.count("C15.json_skipped_unsaved_settings")
             for cls, prm in sorted(pd):
